@@ -200,3 +200,31 @@ reg("C03", "exploration",
     require={"any": {"archives_equal": 1000, "entry_maps_equal": 1000, "fixtures_equal": 3, "find_entry_probes": 2000,
                      "depth.3": 50, "depth.2": 50, "layouts_with_permuted_sections": 100, "layouts_with_gaps": 100,
                      "layouts_with_empty_metadata": 50, "offset_style.2": 100}})
+
+_C04_CELLS = {"transition.add.absent": 100, "transition.add.mem-unique": 100, "transition.add.mem-shared": 100,
+              "transition.add.backed": 100, "transition.remove.absent": 100, "transition.remove.mem-unique": 100,
+              "transition.remove.mem-shared": 100, "transition.remove.backed": 100, "transition.reopen-sync.n/a": 100,
+              "transition.reopen-async.n/a": 100}
+reg("C04", "exploration",
+    "cases = edit histories over {add(id,bytes), remove(id), save+reopen sync, save+reopen async}: (a) EVERY sequence of length <= 4 "
+    "(quick) / <= 6 (thorough) over 11 symbols (ids 4,5,6 adjacent; contents A,B; A also held by the start archive) from two start "
+    "states {empty, opened foreign archive whose single run-length entry maps 5,6 -> A} (distinct by enumeration), (b) random "
+    "histories of 200-2000 ops over up to 10^3 ids across zooms and a 50-content pool with a save+reopen every 50 ops alternating "
+    "sync/async and the 4 codecs (distinct by fingerprint). After EVERY op of (a) and every 25th of (b): lookups of the id universe by "
+    "id and by coordinates, listing, count vs a BTreeMap model, plus the in-crate store report (feature verif). Evidence: "
+    "transition matrix op x abstract pre-state {absent, mem-unique, mem-shared, backed}.",
+    require={"any": dict(_C04_CELLS, **{"full_state_comparisons": 50000, "exhaustive_histories": 20000})},
+    assumptions=["the store report hook (feature verif) only reads the three internal maps"])
+
+reg("C10", "exploration",
+    "cases = (logical archive with a duplication pattern, build history): patterns {random, dense block with runs A A B B A, "
+    "alternating A B A B, duplicates across zooms with gaps, one content over a long dense block crossing a zoom boundary, near "
+    "duplicates sharing length/prefix}; histories {all in memory, half / save+reopen / half (duplicates between reader-backed and "
+    "in-memory tiles), save+reopen then re-add identical bytes, detours through junk that is replaced/removed}; sync and async "
+    "stores; 4 codecs. Distinct by fingerprint of (archive, history); non-trivial = the archive has duplicate contents. Oracle: "
+    "written file parsed by the reference reader (data length = sum of distinct contents, identical content <=> identical offset, "
+    "no mergeable neighbours, entry count = number of maximal runs, content counter) + store report of the builder at quiescent "
+    "points (one retained copy per live content, none unreferenced).",
+    require={"any": {"archives_minimal": 800, "archives_with_duplicates": 400, "archives_with_runs": 200, "history.0": 50,
+                     "history.1": 50, "history.2": 50, "history.3": 50}},
+    assumptions=["no two generated contents collide under the library's 64-bit content hash"])
